@@ -1,23 +1,48 @@
 #!/usr/bin/env python3
-"""run the owning property's check (and all others) against every stored seeded change; print a matrix"""
-import json, os, subprocess, sys
-rows = []
-for name in sorted(n for n in os.listdir("/verif/seeded") if os.path.isdir(f"/verif/seeded/{n}")):
-    d = f"/verif/seeded/{name}"
-    meta = json.load(open(f"{d}/meta.json"))
-    subprocess.check_call(["git", "-C", "/repo", "apply", f"{d}/patch.diff"])
+"""run every check against every stored seeded change (patch applied to an in-memory copy of the sources; /repo is never touched);
+prints a matrix and writes seeded/RESULTS.json.  usage: tools_seeded_all.py [name-substring]"""
+import json, os, sys
+from concurrent.futures import ProcessPoolExecutor
+sys.path.insert(0, os.path.dirname(os.path.abspath(__file__)))
+from tools_neutral import patched_sources
+
+PROPS = [f"C{i:02d}" for i in range(1, 21)]
+
+
+def one(args):
+    name, prop = args
+    from ocv.__main__ import analyse
+    from ocv.core import VIOLATION, UNKNOWN
+    src = patched_sources(f"/verif/seeded/{name}/patch.diff")
+    if src is None:
+        return name, prop, "nopatch"
     try:
-        det, und = [], []
-        for i in range(1, 21):
-            p = f"C{i:02d}"
-            r = subprocess.run(["./vcheck", p, "--no-evidence"], cwd="/verif", capture_output=True, text=True)
-            if r.returncode == 1:
-                det.append(p)
-            elif r.returncode == 2:
-                und.append(p)
-    finally:
-        subprocess.check_call(["git", "-C", "/repo", "checkout", "--", "."])
-    own = meta["property"]
-    rows.append((name, own, own in det, det, und))
-    print(f"{name:45s} own={own} {'CAUGHT' if own in det else 'MISSED'} by={det} undecided={und}", flush=True)
-json.dump([{"seed": r[0], "property": r[1], "caught_by_own_check": r[2], "checks_reporting": r[3], "undecided": r[4]} for r in rows], open("/verif/seeded/RESULTS.json", "w"), indent=1)
+        mod, ctx = analyse(prop, "/repo", "quick", sources=src)
+    except Exception as ex:
+        return name, prop, "crash:" + type(ex).__name__
+    if any(r.status == VIOLATION for r in ctx.results):
+        return name, prop, "violation"
+    if any(r.status == UNKNOWN for r in ctx.results):
+        return name, prop, "undecided"
+    return name, prop, "ok"
+
+
+if __name__ == "__main__":
+    flt = sys.argv[1] if len(sys.argv) > 1 else ""
+    names = sorted(n for n in os.listdir("/verif/seeded") if os.path.isdir(f"/verif/seeded/{n}") and flt in n)
+    tasks = [(n, p) for n in names for p in PROPS]
+    with ProcessPoolExecutor(max_workers=16) as ex:
+        res = list(ex.map(one, tasks, chunksize=4))
+    by = {}
+    for n, p, st in res:
+        by.setdefault(n, {})[p] = st
+    rows = []
+    for n in names:
+        own = json.load(open(f"/verif/seeded/{n}/meta.json"))["property"]
+        det = [p for p in PROPS if by[n][p] == "violation"]
+        und = [p for p in PROPS if by[n][p] not in ("violation", "ok")]
+        rows.append({"seed": n, "property": own, "caught_by_own_check": own in det, "checks_reporting": det, "undecided": und})
+        print(f"{n:45s} own={own} {'CAUGHT' if own in det else 'MISSED'} by={det} undecided={[(p, by[n][p]) for p in und]}", flush=True)
+    if not flt:
+        json.dump(rows, open("/verif/seeded/RESULTS.json", "w"), indent=1)
+    print("missed:", [r["seed"] for r in rows if not r["caught_by_own_check"]])
